@@ -7,6 +7,8 @@
 import DDS.Proofs.GenPagDefs
 import DDS.Proofs.GenDenseEncode
 import DDS.Proofs.RoundTrip
+import DDS.Proofs.GenStoreDecode
+import DDS.Props.C04Pag
 
 namespace DDS.GenPag
 
@@ -215,5 +217,282 @@ theorem Encode_neg (cf : PStore → Nat) (hcompact : CompactSpec cf) (fuel : Nat
       = toRes (fun (p : Store × List Block) => (toGen (storePg p.1) cap, b ++ bn (Wire.encBlocks p.2)))
           (Sketch.encodeStore (.pg s) .neg) :=
   Encode_eq cf hcompact fuel s cap .neg _ FlagTypeNegativeStore_side b hr hf
+
+/-! ### 2. `DecodeAndMergeWith`
+
+  The model (`Sketch.decodeStore (.pg st)`) hands every bin to `addWithCount`; the paginated store decodes
+  two layouts itself (appending to the buffer in batches with `compact()` in between / adding page-wise),
+  so the two results are equal up to abstraction only: same bytes consumed, same error, and the resulting
+  generated store is the image of a model store satisfying the invariant whose CONTENT is the content of
+  the model's result. -/
+
+open DDS.PStore (Idx32 content)
+open DDS.GenStoreDecode (dTrace ccTrace V_ok V_err U_ok U_err F_ok F_err hnil heof decItems_err decItems_ok
+  decItems_none)
+
+/-- a generated decoder result against the model's -/
+def DecAgrees (r : Res (GP × List (BitVec 8) × GoErr)) (m : Option (Except SkErr (Store × Bytes))) : Prop :=
+  match m with
+  | none => False
+  | some (.error e) => e = .eof ∧ ∃ g' b', r = .ok (g', b', GoErr.eof)
+  | some (.ok (st', rest)) => ∃ s' cap' st'', r = .ok (toGen s' cap', bn rest, GoErr.nil) ∧ st' = .pg st'' ∧
+      PStore.Inv s' ∧ PStore.Inv st'' ∧ content s' = content st''
+
+/-- the same for a loop that returns from the function -/
+def LoopAgrees {σ : Type} (r : Loop σ (GP × List (BitVec 8) × GoErr))
+    (m : Option (Except SkErr (Store × Bytes))) : Prop :=
+  match m with
+  | none => False
+  | some (.error e) => e = .eof ∧ ∃ g' b', r = .ret (g', b', GoErr.eof)
+  | some (.ok (st', rest)) => ∃ s' cap' st'', r = .ret (toGen s' cap', bn rest, GoErr.nil) ∧ st' = .pg st'' ∧
+      PStore.Inv s' ∧ PStore.Inv st'' ∧ content s' = content st''
+
+theorem cdc_goMin (x y : Int) : Gen.Paginated.goMin x y = min x y := by
+  unfold Gen.Paginated.goMin
+  by_cases h : x < y
+  · rw [if_pos (by simpa using h)]; omega
+  · rw [if_neg (by simpa using h)]; omega
+
+theorem cdc_goMax (x y : Int) : Gen.Paginated.goMax x y = max x y := by
+  unfold Gen.Paginated.goMax
+  by_cases h : y < x
+  · rw [if_pos (by simpa using h)]; omega
+  · rw [if_neg (by simpa using h)]; omega
+
+theorem cdc_idx32_i64 (i : Int) (h : Idx32 i) : DDS.I64 i := by
+  unfold PStore.Idx32 minInt32 maxInt32 at h
+  unfold DDS.I64
+  omega
+
+theorem cdc_toInt (i : Int) (h : Idx32 i) : (BitVec.ofInt 64 i).toInt = i :=
+  DDS.GenStoreDecode.toInt_ofInt_I64 i (cdc_idx32_i64 i h)
+
+theorem content_append_buffer (s : PStore) (h : PStore.Inv s) (i : Int) (hi : Idx32 i) :
+    content { s with buffer := s.buffer ++ [i] } = (content s).add i 1 := by
+  apply PStore.content_eq_of_lookup _ (PStore.inv_append_buffer s h i hi) _
+    (Content.wf_add _ i 1 (PStore.content_wf s h) (by decide))
+  intro j
+  rw [PStore.wt_append_buffer, Content.lookup_add, PStore.lookup_content s h]
+
+theorem compact_trigger (s s' : PStore) (h : s.compact = some s') :
+    s'.trigger = s'.buffer.length + s'.pageLen := by
+  simp only [PStore.compact, Option.bind_eq_bind] at h
+  cases hl : PStore.compactLoop s ((PStore.sortInts s.buffer).length + 1) (PStore.sortInts s.buffer) [] with
+  | none => rw [hl] at h; simp at h
+  | some r =>
+    obtain ⟨s₁, kept⟩ := r
+    rw [hl] at h
+    simp only [Option.bind_some, Option.pure_def, Option.some.injEq] at h
+    rw [← h]
+    rfl
+
+/-- the model's unit add on a store satisfying the invariant -/
+theorem pg_add_unit (st : PStore) (h : PStore.Inv st) (i : Int) (hi : Idx32 i) :
+    ∃ st1, (Store.pg st).addWithCount i 1 = some (.pg st1) ∧ PStore.Inv st1 ∧ content st1 = (content st).add i 1 := by
+  obtain ⟨st1, h1, h2, h3⟩ := DDS.Props.C04Pag.add_content st h i hi 1 (by decide) true
+  exact ⟨st1, by simp only [Store.addWithCount, h1, Option.map_some], h2, h3⟩
+
+/-- one batch of the `IndexDeltas` layout (`loop2`): `k` items appended to the buffer (no compaction), against
+    the first `k` of the model's `n = k + m` items -/
+theorem dec_loop2 (grow : Int → Int → Int) (batchSize : Int) (m : Nat) :
+    ∀ (k n fuel : Nat) (b : List (BitVec 8)) (s : PStore) (cap : Int) (i : Int) (st : PStore) (idx : Int),
+    n = k + m → batchSize - i = (k : Int) → k + 10 ≤ fuel → PStore.Inv s → PStore.Inv st → content st = content s →
+    (∀ u ∈ dTrace n idx (nb b), Idx32 u) →
+    (Sketch.decItems Sketch.dItem n (.pg st) idx (nb b) = some (.error .eof) ∧
+      ∃ g' b', Gen.Paginated.BufferedPaginatedStore.DecodeAndMergeWith.loop2 grow batchSize fuel b
+        (BitVec.ofInt 64 idx) (toGen s cap) i = .ret (g', b', GoErr.eof)) ∨
+    (∃ s1 cap1 st1 idx1 b1,
+      Gen.Paginated.BufferedPaginatedStore.DecodeAndMergeWith.loop2 grow batchSize fuel b
+        (BitVec.ofInt 64 idx) (toGen s cap) i = .done (b1, BitVec.ofInt 64 idx1, toGen s1 cap1, batchSize) ∧
+      Sketch.decItems Sketch.dItem n (.pg st) idx (nb b) = Sketch.decItems Sketch.dItem m (.pg st1) idx1 (nb b1) ∧
+      (∀ u ∈ dTrace m idx1 (nb b1), Idx32 u) ∧ PStore.Inv s1 ∧ PStore.Inv st1 ∧ content st1 = content s1 ∧
+      s1.buffer.length = s.buffer.length + k) := by
+  intro k
+  induction k with
+  | zero =>
+    intro n fuel b s cap i st idx hn hk hf hI hIt hc htr
+    obtain ⟨fuel, rfl⟩ : ∃ f, fuel = f + 1 := ⟨fuel - 1, by omega⟩
+    have hi : i = batchSize := by omega
+    subst hi
+    have hn' : n = m := by omega
+    subst hn'
+    right
+    refine ⟨s, cap, st, idx, b, ?_, rfl, htr, hI, hIt, hc, by omega⟩
+    simp only [Gen.Paginated.BufferedPaginatedStore.DecodeAndMergeWith.loop2, Int.lt_irrefl, decide_false,
+      Bool.false_eq_true, if_false]
+  | succ k ih =>
+    intro n fuel b s cap i st idx hn hk hf hI hIt hc htr
+    obtain ⟨fuel, rfl⟩ : ∃ f, fuel = f + 1 := ⟨fuel - 1, by omega⟩
+    obtain ⟨n', rfl⟩ : ∃ n', n = n' + 1 := ⟨k + m, by omega⟩
+    have hf9 : 9 ≤ fuel := by omega
+    have hi : i < batchSize := by omega
+    cases hV : decVarint64 (nb b) with
+    | error e1 =>
+      left
+      refine ⟨?_, toGen s cap, b, ?_⟩
+      · exact decItems_err n' _ idx (nb b) _ (Sketch.dItem_of_err _ idx (nb b) _ (Sketch.sk_liftDec_of_error _ _ hV))
+      · simp only [Gen.Paginated.BufferedPaginatedStore.DecodeAndMergeWith.loop2, hi, decide_true, if_true,
+          V_err fuel hf9 b e1 hV, Res.bindL_ok, heof]
+    | ok p1 =>
+      obtain ⟨d, r1⟩ := p1
+      obtain ⟨b1, hV1, hb1, _, _⟩ := V_ok fuel hf9 b d r1 hV
+      have htr' : dTrace (n' + 1) idx (nb b) = (idx + d) :: dTrace n' (idx + d) (nb b1) := by
+        simp only [dTrace, hV, hb1]
+      rw [htr'] at htr
+      have hx : Idx32 (idx + d) := htr _ (List.mem_cons_self ..)
+      obtain ⟨st1, ha1, hIt1, hc1⟩ := pg_add_unit st hIt (idx + d) hx
+      have hit := Sketch.dItem_of_ok (.pg st) idx (nb b) r1 d (Sketch.sk_liftDec_of_ok _ _ hV)
+      rw [ha1, Option.map_some] at hit
+      have hm := decItems_ok n' (.pg st) idx (nb b) (.pg st1) (idx + d) r1 hit
+      let s1 : PStore := { s with buffer := s.buffer ++ [idx + d] }
+      have hI1 : PStore.Inv s1 := PStore.inv_append_buffer s hI _ hx
+      have hcs1 : content st1 = content s1 := by
+        rw [hc1, hc]; exact (content_append_buffer s hI _ hx).symm
+      have hidx : BitVec.ofInt 64 idx + BitVec.ofInt 64 d = BitVec.ofInt 64 (idx + d) := by
+        rw [BitVec.ofInt_add]
+      have hl : ∃ cap', Gen.Paginated.BufferedPaginatedStore.DecodeAndMergeWith.loop2 grow batchSize (fuel + 1) b
+            (BitVec.ofInt 64 idx) (toGen s cap) i
+          = Gen.Paginated.BufferedPaginatedStore.DecodeAndMergeWith.loop2 grow batchSize fuel b1
+            (BitVec.ofInt 64 (idx + d)) (toGen s1 cap') (i + 1) := by
+        simp only [Gen.Paginated.BufferedPaginatedStore.DecodeAndMergeWith.loop2, hi, decide_true, if_true, hV1,
+          Res.bindL_ok, hnil, Bool.false_eq_true, if_false, hidx, cdc_toInt _ hx]
+        by_cases hcap : (GoSem.len (toGen s cap).buffer == (toGen s cap).bufferCap) = true
+        · exact ⟨grow cap (GoSem.len s.buffer + 1), by simp only [hcap, if_true]; rfl⟩
+        · exact ⟨cap, by simp only [hcap]; rfl⟩
+      obtain ⟨cap', hl⟩ := hl
+      rw [hl, hm, ← hb1]
+      rcases ih n' fuel b1 s1 cap' (i + 1) st1 (idx + d) (by omega) (by omega) (by omega) hI1 hIt1 hcs1
+        (fun u hu => htr u (List.mem_cons_of_mem _ hu)) with h | ⟨s2, cap2, st2, idx2, b2, h1, h2, h3, h4, h5, h6, h7⟩
+      · exact Or.inl h
+      · refine Or.inr ⟨s2, cap2, st2, idx2, b2, h1, h2, h3, h4, h5, h6, ?_⟩
+        rw [h7]
+        show (s.buffer ++ [idx + d]).length + k = _
+        rw [List.length_append, List.length_singleton]
+        omega
+
+/-- the batches of the `IndexDeltas` layout (`loop1`): batch, `compact()`, batch, … against the model's `n` items.
+    `M` bounds the number of rounds (`2n`, `+1` when the first batch is empty because the buffer is full);
+    `F` is enough fuel for every `compact` on a store (with the invariant) whose buffer has at most `L` entries. -/
+theorem dec_loop1 (cf : PStore → Nat) (hcompact : CompactSpec cf) (grow : Int → Int → Int) (F L : Nat)
+    (hcf : ∀ s', PStore.Inv s' → s'.buffer.length ≤ L → cf s' ≤ F) :
+    ∀ (M n fuel : Nat) (b : List (BitVec 8)) (s : PStore) (cap : Int) (st : PStore) (idx : Int),
+    2 * n + (if (s.buffer.length : Int) < max cap (s.trigger : Int) then 0 else 1) < M →
+    F + M + n + 11 ≤ fuel → s.buffer.length + n ≤ L →
+    (s.buffer.length : Int) ≤ max cap (s.trigger : Int) →
+    PStore.Inv s → PStore.Inv st → content st = content s →
+    (∀ u ∈ dTrace n idx (nb b), Idx32 u) →
+    LoopAgrees (Gen.Paginated.BufferedPaginatedStore.DecodeAndMergeWith.loop1 grow fuel b (BitVec.ofInt 64 idx)
+        (toGen s cap) (n : Int))
+      (Sketch.decItems Sketch.dItem n (.pg st) idx (nb b)) := by
+  intro M
+  induction M with
+  | zero => intro n fuel b s cap st idx hM; omega
+  | succ M ih =>
+    intro n fuel b s cap st idx hM hf hL hcap hI hIt hc htr
+    obtain ⟨fuel, rfl⟩ : ∃ f, fuel = f + 1 := ⟨fuel - 1, by omega⟩
+    -- the batch size
+    obtain ⟨k, hk⟩ : ∃ k : Nat, (k : Int) = min (n : Int) (max cap (s.trigger : Int) - (s.buffer.length : Int)) :=
+      ⟨(min (n : Int) (max cap (s.trigger : Int) - (s.buffer.length : Int))).toNat, by omega⟩
+    have hkn : k ≤ n := by omega
+    obtain ⟨m, hm⟩ : ∃ m, n = k + m := ⟨n - k, by omega⟩
+    have hbs : Gen.Paginated.goMin (n : Int) (Gen.Paginated.goMax (toGen s cap).bufferCap
+        (toGen s cap).bufferCompactionTriggerLen - GoSem.len (toGen s cap).buffer) = (k : Int) := by
+      rw [cdc_goMin, cdc_goMax]; simp only [toGen_bufferCap, toGen_trigger, toGen_buffer, GoSem.len]; omega
+    unfold Gen.Paginated.BufferedPaginatedStore.DecodeAndMergeWith.loop1
+    simp only [hbs]
+    rcases dec_loop2 grow (k : Int) m k n fuel b s cap 0 st idx hm (by omega) (by omega) hI hIt hc htr with
+      ⟨h1, g', b', h2⟩ | ⟨s1, cap1, st1, idx1, b1, h1, h2, h3, hI1, hIt1, hc1, hlen1⟩
+    · rw [h1, h2]
+      exact ⟨rfl, g', b', rfl⟩
+    · rw [h1, h2]
+      simp only [Loop.elimL]
+      by_cases hm0 : m = 0
+      · subst hm0
+        have hz : ((n : Int) - (k : Int) == 0) = true := by rw [beq_iff_eq]; omega
+        simp only [hz, if_true, Sketch.decItems]
+        exact ⟨s1, cap1, st1, by rw [bn_nb], rfl, hI1, hIt1, hc1.symm⟩
+      · have hz : ((n : Int) - (k : Int) == 0) = false := by rw [beq_eq_false_iff_ne]; omega
+        simp only [hz, Bool.false_eq_true, if_false]
+        have hcf1 : cf s1 ≤ fuel := Nat.le_trans (hcf s1 hI1 (by omega)) (by omega)
+        rw [hcompact s1 cap1 fuel hcf1]
+        obtain ⟨s2, hcp, hI2, hc2⟩ := DDS.Props.C04Pag.compact_content s1 hI1
+        have hlen2 := (DDS.RoundTrip.compact_buffer s1 s2 hcp).1
+        have htrig := compact_trigger s1 s2 hcp
+        have hpl : 0 < s2.pageLen := Nat.two_pow_pos _
+        rw [hcp, toRes_some, Res.bindL_ok, show (n : Int) - (k : Int) = (m : Int) by omega]
+        have hlt : (s2.buffer.length : Int) < max cap1 (s2.trigger : Int) := by omega
+        apply ih m fuel b1 s2 cap1 st1 idx1 _ (by omega) (by omega) (by omega) hI2 hIt1 (by rw [hc1, hc2]) h3
+        rw [if_pos hlt]
+        by_cases hk0 : k = 0
+        · subst hk0
+          have : ¬ ((s.buffer.length : Int) < max cap (s.trigger : Int)) := by omega
+          rw [if_neg this] at hM
+          omega
+        · omega
+
+theorem beqDeltas : (BinEncodingIndexDeltas == BinEncodingIndexDeltas) = true := by decide
+
+/-- **`DecodeAndMergeWith`, layout `BinEncodingIndexDeltas`** (batches of appends with `compact()` in between, for
+    every capacity, every `grow` oracle, every fallback), against `Sketch.decodeStore (.pg s)`:
+    same error (`io.EOF` ↔ `.eof`), same remaining bytes, and the resulting store is the image of a model store
+    with the invariant and the CONTENT of the model's result; the model does not panic and the generated code
+    neither panics nor runs out of fuel.
+
+    Hypotheses: the invariant; `len(buffer) ≤ max(cap(buffer), trigger)` (true of every Go slice; without it the
+    first batch size is negative and `remaining` GROWS); the announced number of bins `v` fits `int`
+    (`v < 2^63`, see `deltas_negative_count` for what happens otherwise); every decoded index is an int32
+    (`Idx32`, needed by the invariant).  Fuel: `F + 3 v + 21` where `F` is enough for `compact` on any store
+    with the invariant and a buffer of at most `L ≥ len(buffer) + v` entries. -/
+theorem DecodeAndMergeWith_deltas (cf : PStore → Nat) (hcompact : CompactSpec cf) (grow : Int → Int → Int)
+    (fb : GP → List (BitVec 8) → SubFlag → Res (GP × List (BitVec 8) × GoErr))
+    (F L : Nat) (hcf : ∀ s', PStore.Inv s' → s'.buffer.length ≤ L → cf s' ≤ F)
+    (fuel : Nat) (s : PStore) (cap : Int) (b : List (BitVec 8)) (hI : PStore.Inv s)
+    (hcap : (s.buffer.length : Int) ≤ max cap (s.trigger : Int)) (hf9 : 9 ≤ fuel)
+    (hn : ∀ v rest, decUvarint64 (nb b) = .ok (v, rest) →
+      v < 2 ^ 63 ∧ s.buffer.length + v ≤ L ∧ F + 3 * v + 21 ≤ fuel)
+    (hidx : ∀ u ∈ DDS.GenStoreDecode.storeIndexes Consts.binEncodingIndexDeltas (nb b), Idx32 u) :
+    DecAgrees (Gen.Paginated.BufferedPaginatedStore.DecodeAndMergeWith fuel grow fb (toGen s cap) b
+        BinEncodingIndexDeltas)
+      (Sketch.decodeStore (.pg s) Consts.binEncodingIndexDeltas (nb b)) := by
+  unfold Gen.Paginated.BufferedPaginatedStore.DecodeAndMergeWith
+  rw [Sketch.decodeStore_eq]
+  simp only [beqDeltas, if_true, show Consts.binEncodingIndexDeltas ≠ Consts.binEncodingIndexDeltasAndCounts by decide,
+    if_false]
+  cases hU : decUvarint64 (nb b) with
+  | error e =>
+    rw [U_err fuel hf9 b e hU]
+    simp only [Res.bind_ok, heof, if_true, Sketch.liftDec]
+    exact ⟨rfl, _, _, rfl⟩
+  | ok p =>
+    obtain ⟨v, rest⟩ := p
+    obtain ⟨hv, hL, hf⟩ := hn v rest hU
+    obtain ⟨b1, hU1, hb1, _, _⟩ := U_ok fuel hf9 b v rest hU
+    rw [hU1]
+    simp only [Res.bind_ok, hnil, Bool.false_eq_true, if_false, Sketch.liftDec]
+    have hti : (BitVec.ofNat 64 v).toInt = (v : Int) := by
+      rw [BitVec.toInt_eq_toNat_cond, BitVec.toNat_ofNat]
+      have : v % 2 ^ 64 = v := Nat.mod_eq_of_lt (by omega)
+      rw [this, if_pos (by omega)]
+    have htr : ∀ u ∈ dTrace v 0 (nb b1), Idx32 u := by
+      intro u hu
+      apply hidx u
+      simp only [DDS.GenStoreDecode.storeIndexes, hU,
+        show Consts.binEncodingIndexDeltas ≠ Consts.binEncodingIndexDeltasAndCounts by decide, if_false, if_true]
+      rw [hb1] at hu; exact hu
+    have h := dec_loop1 cf hcompact grow F L hcf (2 * v + 2) v fuel b1 s cap s 0 (by split <;> omega) (by omega)
+      hL hcap hI hI rfl htr
+    rw [hti, show (0#64) = BitVec.ofInt 64 0 from rfl, ← hb1]
+    revert h
+    cases Sketch.decItems Sketch.dItem v (.pg s) 0 (nb b1) with
+    | none => exact fun h => h
+    | some r =>
+      cases r with
+      | error e =>
+        rintro ⟨h1, g', b', h2⟩
+        rw [h2]; exact ⟨h1, g', b', rfl⟩
+      | ok q =>
+        obtain ⟨st', rest'⟩ := q
+        rintro ⟨s', cap', st'', h1, h2⟩
+        rw [h1]; exact ⟨s', cap', st'', rfl, h2⟩
 
 end DDS.GenPag
